@@ -17,14 +17,30 @@ import (
 
 // zzRuntime: 60 id 50 | PUSH1 0 x4, PUSH1 1 (value), PUSH20 third, GAS, CALL, POP | tail
 //   id 0: STOP   id 1: call third, STOP   id 2: call third, REVERT   id 4: call third, INVALID
+//   id 5: call third with value 0, call third with value 1, STOP
+//   id 6: REVERT when called without value, STOP otherwise
 func zzRuntime(id int, third []byte) []byte {
 	rt := []byte{0x60, byte(id), 0x50}
 	if id == 0 {
 		return append(rt, 0x00)
 	}
-	rt = append(rt, 0x60, 0x00, 0x60, 0x00, 0x60, 0x00, 0x60, 0x00, 0x60, 0x01, 0x73)
+	if id == 6 {
+		// CALLVALUE, PUSH1 0x0C, JUMPI, PUSH1 0, PUSH1 0, REVERT, JUMPDEST, STOP
+		return append(rt, 0x34, 0x60, 0x0C, 0x57, 0x60, 0x00, 0x60, 0x00, 0xFD, 0x5B, 0x00)
+	}
+	firstValue := byte(0x01)
+	if id == 5 {
+		firstValue = 0x00
+	}
+	rt = append(rt, 0x60, 0x00, 0x60, 0x00, 0x60, 0x00, 0x60, 0x00, 0x60, firstValue, 0x73)
 	rt = append(rt, third...)
 	rt = append(rt, 0x5A, 0xF1, 0x50)
+	if id == 5 {
+		// second call, value 1
+		rt = append(rt, 0x60, 0x00, 0x60, 0x00, 0x60, 0x00, 0x60, 0x00, 0x60, 0x01, 0x73)
+		rt = append(rt, third...)
+		rt = append(rt, 0x5A, 0xF1, 0x50, 0x00)
+	}
 	switch id {
 	case 1:
 		rt = append(rt, 0x00)
@@ -74,10 +90,14 @@ func ZZ_C17_E12() {
 	// block 3: deployments by A1
 	n.begin(0, nil, nil)
 	r2 := n.deploy(1, zzInitCode(2, x)) // pays x 1 unit, then reverts
-	pid := []int{0, 1, 2, 4}[zzverif.Choose("program", 4)]
+	pid := []int{0, 1, 2, 4, 5}[zzverif.Choose("program", 5)]
 	third := x
 	thirdIsR := false
-	if pid != 0 && zzverif.Choose("third.isContract", 2) == 1 {
+	if pid == 5 {
+		// program 5 calls a value-sensitive callee twice: first call reverts, second pays it
+		r2 = n.deploy(1, zzInitCode(6, nil))
+		third, thirdIsR = r2, true
+	} else if pid != 0 && zzverif.Choose("third.isContract", 2) == 1 {
 		third, thirdIsR = r2, true
 	}
 	p := n.deploy(1, zzInitCode(pid, third))
@@ -161,10 +181,16 @@ func ZZ_C17_E12() {
 				wantX.Add(wantX, uint256.NewInt(1))
 			}
 			// pid 1 calling r2: r2 pays x and reverts, the whole inner call is undone
+			wantR := pre[2].Clone()
+			if pid == 5 && !wantP.IsZero() {
+				// first call (value 0) reverts, the second one pays the callee 1 unit
+				wantP.Sub(wantP, uint256.NewInt(1))
+				wantR.Add(wantR, uint256.NewInt(1))
+			}
 			zzverif.Assert(post[1].Eq(wantP), "E1 contract balance = reference EVM result")
 			zzverif.Assert(post[3].Eq(wantX), "E1 callee balance = reference EVM result (an account first touched in a reverted frame keeps its native balance)")
-			zzverif.Assert(post[2].Eq(pre[2]), "E1 a reverting callee keeps its balance")
-			zzverif.Assert(pid == 0 || pid == 1, "E2 a program that reverts or hits an invalid opcode makes the tx fail")
+			zzverif.Assert(post[2].Eq(wantR), "E1 contract callee balance = reference EVM result (a reverting call leaves it, a later successful call pays it)")
+			zzverif.Assert(pid == 0 || pid == 1 || pid == 5, "E2 a program that reverts or hits an invalid opcode makes the tx fail")
 		}
 		zzverif.Reach("E12 succeeded")
 	}
